@@ -31,7 +31,7 @@ def corpus():
 def generate(rng, tier):
     n = {"quick": 1200, "thorough": 30000, "search": 15000}[tier]
     out = [_scn.case(rng, ncomp=rng.choice([2, 3, 4, 5]), setup_fail=0.2, body_fail=0.5) for _ in range(n)]
-    kinds = ["failnow", "panicerr", "panicstr", "nilmap", "errorf", "timefail", "timeerr", "errunhash", "panicunhash", "paniclong", "panicint", "panicis", "panicnilptr", "errnil", "fatalnil"]
+    kinds = ["failnow", "panicerr", "panicstr", "nilmap", "errorf", "timefail", "timeerr", "errunhash", "panicunhash", "paniclong", "panicint", "panicis", "panicnilptr", "errnil", "fatalnil", "panicstringer"]
     for _ in range({"quick": 6, "thorough": 60, "search": 16}[tier]):
         out.append("cli mode=users dur=%s conc=%d bodyms=1 maxit=%d failevery=%d failkind=%s combine=1%s expectlimit=1" % (
             hx("400ms"), rng.choice([1, 2]), rng.randint(6, 16), rng.choice([2, 3]), rng.choice(kinds), rng.choice(["", " twice=1"])))
